@@ -619,3 +619,53 @@ func VerifC14_BuildCanaryIngressKeepsPathDetails() {
 	// renamed; it is a private copy that EnsureRoutes never writes or reads again — that the *stored* stable Ingress is
 	// never written is C14.ensure.onlyCanaryWritten)
 }
+
+// VerifC14_CanaryIngressIsNeverTheStableIngress: whatever the user's Ingress is called — names that already end in
+// "-canary" included — the canary Ingress is another object: a step creates it next to the stable Ingress, writes the
+// canary annotations onto it and not onto the user's, and finalising deletes it and not the user's.
+func VerifC14_CanaryIngressIsNeverTheStableIngress() {
+	names := []string{"echo", "echo-canary", "canary", "echo-canary-canary"}
+	name := names[verifrt.IntRange("ing.name", 0, len(names)-1)]
+	class := "nginx"
+	c := &symclient.Client{}
+	c.ApplyFn = c.ApplyToStore
+	r := &ingressController{Client: c,
+		conf: Config{Key: "r", Namespace: "ns", StableService: c14Stable, CanaryService: c14Canary,
+			TrafficConf: &v1beta1.IngressTrafficRouting{Name: name, ClassType: class}},
+		canaryIngressName: defaultCanaryIngressName(name),
+		luaManager:        &luamanager.LuaManager{},
+		luaScript:         verifrt.RepoFile("lua_configuration/trafficrouting_ingress/" + class + ".lua"),
+	}
+	verifrt.Assert(r.canaryIngressName != name, "C14.name.canaryIsAnotherObject")
+	stable := &netv1.Ingress{ObjectMeta: metav1.ObjectMeta{Name: name, Namespace: "ns", Annotations: c14UserAnnotations(class)}}
+	stable.Spec.Rules = []netv1.IngressRule{{Host: "shop.example.com", IngressRuleValue: netv1.IngressRuleValue{HTTP: &netv1.HTTPIngressRuleValue{Paths: []netv1.HTTPIngressPath{
+		{Path: "/", Backend: netv1.IngressBackend{Service: &netv1.IngressServiceBackend{Name: c14Stable, Port: netv1.ServiceBackendPort{Number: 80}}}}}}}}}
+	c.Objects = append(c.Objects, stable.DeepCopy())
+	w := int32(verifrt.IntRange("step.weight", 1, 100))
+	t := fmt.Sprintf("%d%%", w)
+	strategy := &v1beta1.TrafficRoutingStrategy{Traffic: &t}
+	for i := 0; i < 3; i++ {
+		done, err := r.EnsureRoutes(context.TODO(), strategy)
+		if err != nil {
+			return
+		}
+		if done {
+			break
+		}
+	}
+	for _, wr := range c.Log {
+		verifrt.Assert(wr.Obj.GetName() != name, "C14.name.stableIngressNeverWritten")
+	}
+	got, _ := c.Find("Ingress", "ns", name).(*netv1.Ingress)
+	verifrt.Assert(got != nil && c14SameMap(got.Annotations, stable.Annotations, append([]string{"kubernetes.io/ingress.class", "user/team"}, c14Managed(class)...)), "C14.name.stableIngressKeepsItsAnnotations")
+	canary, _ := c.Find("Ingress", "ns", r.canaryIngressName).(*netv1.Ingress)
+	// (the stand-in API server stores creates, not patches: the created canary carries the marker, the step's weight
+	// travels in the patch that follows, addressed to the same object)
+	verifrt.Assert(canary != nil && canary.Annotations["nginx.ingress.kubernetes.io/canary"] == "true", "C14.name.canaryIngressCreatedNextToTheStableOne")
+	for _, wr := range c.Writes("patch", "Ingress") {
+		verifrt.Assert(wr.Obj.GetName() == r.canaryIngressName, "C14.name.stepIsWrittenToTheCanaryIngress")
+	}
+	_, err := r.Finalise(context.TODO())
+	verifrt.Assert(err == nil && c.Find("Ingress", "ns", name) != nil, "C14.name.finaliseKeepsTheStableIngress")
+	verifrt.Cover("C14.name.done")
+}
